@@ -7,6 +7,8 @@
 From Coq Require Import List Arith Bool ZArith Permutation.
 From OV Require Import Model.TreeDef Model.TreeAlgo Model.TreeAlgoProofs Model.TreeAlgoDescr Model.TreeAlgoDescrProofs.
 From OV Require Gen.TreeAlgoDescr.
+From OV Require Model.TreeHeap Model.TreeHeapBase.
+From OV Require Import Model.TreeHeapAlgoLink.
 Import ListNotations.
 
 (* ---- n_nodes, n_leaves, min_depth, max_depth: the level-order sweep of _properties *)
@@ -183,3 +185,73 @@ Proof.
   split; [| exact post_stack_needs_nodup].
   intros H. inversion H as [| x l Hn _]. apply Hn. vm_compute. auto.
 Qed.
+
+(* ---- the second model of the same code.  Model/TreeHeap.v (the pointer-level heap the GP operators of C08/C09 run
+   on) has its own [pre_order], [find_node], [n_nodes], reading stored left / right / parent / flag fields of cells.
+   On every heap that represents a tree t ([Rep tab st par fl t]: laid out in st, the root cell storing parent
+   [par]; [NoDup (ids t)]; for find_node: if the root stores a parent, that cell exists) they compute what the
+   mirrors above compute on t, with [par] / [flg] := the stored fields ([hpar st], [hflg st]); for every position.
+   Result maps: Some (FnSlot q f) -> Ok (q, f); Some FnAttrErr -> Exn; None / FnOther -> Stuck (never happens).
+   Proofs: Model/TreeHeapAlgoLink.v. *)
+Theorem C11_heap_pre_order_is_pre_stack : forall tab st par fl t,
+  OV.Model.TreeHeapBase.Rep tab st par fl t -> NoDup (ids t) ->
+  exists po, pre_stack t = Some po /\ OV.Model.TreeHeap.pre_order st (tid t) = OV.Model.TreeHeap.Ok (map tid po).
+Proof. exact pre_order_heap_is_pre_stack. Qed.
+
+Theorem C11_heap_find_node_is_find_node_h : forall tab st par fl t p,
+  OV.Model.TreeHeapBase.Rep tab st par fl t -> NoDup (ids t) -> parent_alloc st par ->
+  OV.Model.TreeHeap.find_node st (tid t) p = res_of_fn (find_node_h (hpar st) (hflg st) t p).
+Proof. exact find_node_heap_is_find_node_h. Qed.
+
+Theorem C11_heap_find_node_never_stuck : forall tab st par fl t p,
+  OV.Model.TreeHeapBase.Rep tab st par fl t -> NoDup (ids t) -> parent_alloc st par ->
+  OV.Model.TreeHeap.find_node st (tid t) p <> OV.Model.TreeHeap.Stuck.
+Proof. exact find_node_heap_never_stuck. Qed.
+
+Theorem C11_heap_n_nodes_is_props_bfs : forall tab st par fl t,
+  OV.Model.TreeHeapBase.Rep tab st par fl t -> NoDup (ids t) ->
+  OV.Model.TreeHeap.n_nodes st (tid t) = res_of_count (props_bfs t).
+Proof. exact n_nodes_heap_is_props_bfs. Qed.
+
+(* ... hence the regenerated descriptions *)
+Theorem C11_heap_source_pre_order : forall tab dp, OV.Gen.TreeAlgoDescr.pre_order_descr = Some dp ->
+  forall st par fl t, OV.Model.TreeHeapBase.Rep tab st par fl t -> NoDup (ids t) ->
+  OV.Model.TreeHeap.pre_order st (tid t) = res_of_ids (interp_pre dp t).
+Proof. exact (fun tab => pre_order_heap_is_descr tab _ C11_descr_pre_order_regenerated). Qed.
+
+Theorem C11_heap_source_find_node : forall tab dp df,
+  OV.Gen.TreeAlgoDescr.pre_order_descr = Some dp -> OV.Gen.TreeAlgoDescr.find_node_descr = Some df ->
+  forall dq st par fl t p, OV.Model.TreeHeapBase.Rep tab st par fl t -> NoDup (ids t) -> parent_alloc st par ->
+  OV.Model.TreeHeap.find_node st (tid t) p = res_of_fn (interp_find dp dq df (hpar st) (hflg st) t p).
+Proof.
+  exact (fun tab => find_node_heap_is_descr tab _ _ C11_descr_pre_order_regenerated C11_descr_find_node_regenerated).
+Qed.
+
+Theorem C11_heap_source_n_nodes : forall tab d, OV.Gen.TreeAlgoDescr.properties_descr = Some d ->
+  forall st par fl t, OV.Model.TreeHeapBase.Rep tab st par fl t -> NoDup (ids t) ->
+  OV.Model.TreeHeap.n_nodes st (tid t) = res_of_zcount (interp_props d t).
+Proof. exact (fun tab => n_nodes_heap_is_descr tab _ C11_descr_properties_regenerated). Qed.
+
+(* the guard [parent_alloc] is needed only against dangling pointers, which no Python state has: a function cell whose
+   stored parent is not allocated makes the heap model raise where the mirror reads None *)
+Example C11_heap_find_node_differs_outside :
+  ~ parent_alloc dangling_heap (Some 5) /\
+  OV.Model.TreeHeap.find_node dangling_heap 0 0 = OV.Model.TreeHeap.Exn /\
+  res_of_fn (find_node_h (hpar dangling_heap) (hflg dangling_heap) dangling_tree 0) = OV.Model.TreeHeap.Ok (None, false).
+Proof. exact find_node_differs_outside. Qed.
+
+(* non-vacuity: SUM(EXP(x0), MUL(x1, x2)) as grow links it; from the root, and from the attached sub-root MUL (cell 3,
+   stored parent = the root): the answers /repo gives (root, p = 0: AttributeError; MUL, p = 0: (None, False)) *)
+Example C11_ex_heap_represents :
+  OV.Model.TreeHeapBase.WFt ex_tab ex_heap ex_root /\ OV.Model.TreeHeapBase.Rep ex_tab ex_heap (Some 0) false ex_sub.
+Proof. exact ex_heap_represents. Qed.
+
+Example C11_ex_heap_find_node :
+  map (OV.Model.TreeHeap.find_node ex_heap 0) [0; 1; 2; 3; 4; 5; 6; 7] =
+  [OV.Model.TreeHeap.Exn; OV.Model.TreeHeap.Ok (None, false); OV.Model.TreeHeap.Ok (Some 1, true);
+   OV.Model.TreeHeap.Ok (None, false); OV.Model.TreeHeap.Ok (Some 3, true); OV.Model.TreeHeap.Ok (Some 3, false);
+   OV.Model.TreeHeap.Ok (None, false); OV.Model.TreeHeap.Ok (None, false)] /\
+  map (OV.Model.TreeHeap.find_node ex_heap 3) [0; 1; 2; 3] =
+  [OV.Model.TreeHeap.Ok (None, false); OV.Model.TreeHeap.Ok (Some 3, true); OV.Model.TreeHeap.Ok (Some 3, false);
+   OV.Model.TreeHeap.Ok (None, false)].
+Proof. vm_compute. split; reflexivity. Qed.
